@@ -18,6 +18,7 @@ class Gen:
         self.r = rng
         self.lines = []
         self.linenos = []
+        self.allow_empty_data = True
 
     # ---- expressions
     def num(self, depth=0):
@@ -285,15 +286,18 @@ class Gen:
             lambda: "GOSUB %s" % self.target(),
         ))()
 
-    def data_line(self):
+    def data_line(self, allow_empty=True):
         r = self.r
         items = []
         for _ in range(r.randint(1, 6)):
             c = r.random()
+            if not allow_empty and c < 0.25:
+                c = 0.3
             if c < 0.25 and not any(i.startswith("&H") for i in items):
                 items.append("")
             elif c < 0.5:
-                items.append(str(r.randint(0, 999)))
+                items.append(r.choice(("0", "1", "2", "7", "10", "255", "3.5", "-1", "-0", "100",
+                                       str(r.randint(0, 999)))))
             elif c < 0.6 and "" not in items:
                 items.append("&H%X" % r.randint(0, 255))
             elif c < 0.8:
@@ -322,7 +326,10 @@ class Gen:
     # ---- whole program
     def program(self, flavour=None, refuse=None):
         r = self.r
-        flavour = flavour or r.choice(("arrays", "strings", "devices", "jumps", "mixed", "mixed"))
+        flavour = flavour or r.choice(("arrays", "strings", "devices", "jumps", "data", "mixed", "mixed"))
+        # DATA-heavy programs come with and without empty items (an empty item switches on a
+        # rewriting pass over every DATA literal of the program)
+        self.allow_empty_data = r.random() < 0.5
         nlines = r.choice((1, 2, 3, 5, 8, 12, 20))
         step = r.choice((1, 10, 10, 100))
         start = r.choice((0, 1, 10, 100, 1000))
@@ -332,8 +339,8 @@ class Gen:
         for ln in self.linenos:
             parts = []
             k = r.random()
-            if k < 0.08:
-                parts.append(self.data_line())
+            if k < 0.08 or (flavour == "data" and k < 0.5):
+                parts.append(self.data_line(allow_empty=self.allow_empty_data))
             elif k < 0.18:
                 parts.append(self.dim_line())
             elif k < 0.26:
